@@ -7,6 +7,7 @@ package sess
 import (
 	"fmt"
 	"google.golang.org/protobuf/encoding/protowire"
+	"pgregory.net/rapid"
 	"sort"
 	"strings"
 
@@ -15,6 +16,7 @@ import (
 
 	spb "github.com/openconfig/gribi/v1/proto/service"
 
+	"verifh/internal/clock"
 	"verifh/internal/drive"
 	"verifh/internal/ev"
 	"verifh/internal/gen"
@@ -61,6 +63,9 @@ type Step struct {
 	// 15, varint Unk) - as sent by a client built against a later revision of the protocol;
 	// the number announced is the same
 	Unk int `json:"unk,omitempty"`
+	// Clock != 0: before the step the wall clock the server reads is stepped, frozen or
+	// released (see package clock: 1 = freeze, 2 = unfreeze, otherwise nanoseconds)
+	Clock int64 `json:"clock,omitempty"`
 }
 
 func (s Step) String() string {
@@ -295,6 +300,7 @@ func Run(sc Script, c Checks) (*ev.Verdict, *Stats) {
 	v := &ev.Verdict{}
 	st := &Stats{Announced: map[int]bool{}}
 	w := &world{c: c, v: v, st: st, prim: -1, fold: obs.State{}, owner: map[uint64]int{}}
+	clock.Install()
 	w.s = drive.NewSrv(sc.FwdRefs, hgen.NIs[1:])
 	w.m = model.New("DEFAULT", hgen.NIs[1:], sc.FwdRefs)
 	defer func() {
@@ -347,6 +353,10 @@ func Run(sc Script, c Checks) (*ev.Verdict, *Stats) {
 	}
 	for i, stp := range steps {
 		w.step = i
+		if stp.Clock != 0 {
+			clock.Apply(stp.Clock)
+			v.Class("clock-stepped-or-frozen")
+		}
 		for len(w.sess) <= stp.S {
 			w.sess = append(w.sess, &sessModel{sent: map[uint64]*gen.Op{}, results: map[uint64][]spb.AFTResult_Status{}, answered: map[uint64]bool{}})
 		}
@@ -1083,4 +1093,14 @@ func Minimize(sc Script, fails func(Script) bool) Script {
 		}
 	}
 	return cur
+}
+
+// DrawClock adds clock events (package clock) before some steps of the script: with
+// probability pct percent per step.
+func DrawClock(rt *rapid.T, sc *Script, pct int) {
+	for i := range sc.Steps {
+		if rapid.IntRange(0, 99).Draw(rt, "clock?") < pct {
+			sc.Steps[i].Clock = clock.Steps[rapid.IntRange(0, len(clock.Steps)-1).Draw(rt, "clock")]
+		}
+	}
 }
